@@ -79,8 +79,11 @@ def run(chk):
                 'owg': rng.random() < 0.25})
   nops = []
   for i in range(400 if thorough else 60):
-    nops.append({'vars': gen_vars(rng), 'wrt': gen_wrt(rng), 'tx': 'int_momentum' if i % 2 == 0 else rng.choice(txs),
-                 'steps': rng.randint(1, 4), 'share': rng.random() < 0.3})
+    wrt = gen_wrt(rng)
+    # a shared Variable is listed under its first path ('alias' sorts first): path filters then see another path than the model's
+    share = rng.random() < 0.3 and 'pc' not in wrt
+    nops.append({'vars': gen_vars(rng), 'wrt': wrt, 'tx': 'int_momentum' if i % 2 == 0 else rng.choice(txs),
+                 'steps': rng.randint(1, 4), 'share': share})
   ntss = [{'vars': gen_vars(rng), 'tx': rng.choice(txs), 'steps': rng.randint(1, 3)} for _ in range(60 if thorough else 10)]
   metrics = []
   for n in range(1, 7 if thorough else 6):
